@@ -120,7 +120,7 @@ def gen_digest_cases(ck, rng, names):
         B, _ = DIGESTS[name]
         lb = 16 if B == 128 else 8                 # length-field bytes (irrelevant but harmless for sha3)
         N = sc(ck, 2 * B + 17, 2 * B + 40)
-        nrand = sc(ck, 3, 64 if name in MD_DIGESTS else 24)
+        nrand = sc(ck, 3, 64)
         small = sc(ck, 20, 48)
         for L in range(0, N + 1):
             msg = rng.bytes(L)
@@ -145,7 +145,7 @@ def gen_digest_cases(ck, rng, names):
         if not qk(ck):
             edge = {0, 1, 2, B - 1, B - 2, (B - lb) % B, (B - lb - 1) % B, (B - lb + 1) % B}
             for L in range(N + 1, 2101):
-                if L % B not in edge:
+                if L % B not in edge and L % 7 != 3:
                     continue
                 msg = rng.bytes(L)
                 for cs in ([], [B * (1 + rng.below(L // B))], [rng.below(L + 1) for _ in range(3)],
@@ -202,7 +202,7 @@ def gen_sponge_cases(ck, rng):
     caps = list(range(8, 1600, 8))
     # rejected capacities
     cases.append(["k.init 0", "k.abs 00", "k.init 7", "k.init 1600", "k.init 1593", "k.init 12", "k.init 1592", "k.dump"])
-    per_cap = sc(ck, 3, 20)
+    per_cap = sc(ck, 3, 40)
     for cap in caps:
         r = (1600 - cap) // 8
 
@@ -462,8 +462,8 @@ def run(ck):
     keccak_all = kd + hm_k + shk + spg + prm
     par_compare(ck, h64, dcmd, keccak_all, "keccak-64bit")
     # the other two code paths: everything at quick volume; at thorough volume every sponge / prng /
-    # permutation case and a third of the (much more numerous) digest and HMAC cases
-    k_other = keccak_all if qk(ck) else (kd[::3] + hm_k[::3] + shk + spg + prm)
+    # permutation case and half of the (much more numerous) digest and HMAC cases
+    k_other = keccak_all if qk(ck) else (kd[::2] + hm_k[::2] + shk + spg + prm)
     par_compare(ck, hsmall, dcmd, k_other, "keccak-small")
     par_compare(ck, h32, dcmd, k_other, "keccak-32bit")
     par_compare(ck, h64, ref, refc, "reference-hashlib")
